@@ -3,7 +3,8 @@
 cd /verif
 if [ -n "$(git status --porcelain --untracked-files=no)" ]; then echo "REFUSING: /verif has uncommitted changes"; exit 1; fi
 git merge -q --no-edit "$1" >/dev/null 2>&1 || {
-  for f in $(git diff --name-only --diff-filter=U); do case "$f" in coq/Generated/Tables.v|evidence/*|MANIFEST.json|known_findings.json|harness/fingerprints.json) git checkout --ours "$f"; git add "$f";; esac; done
+  git rm -q --cached coq/Generated/Tables.v 2>/dev/null
+  for f in $(git diff --name-only --diff-filter=U); do case "$f" in evidence/*|MANIFEST.json|known_findings.json|harness/fingerprints.json) git checkout --ours "$f"; git add "$f";; esac; done
   if git diff --name-only --diff-filter=U | grep -q .; then echo "UNRESOLVED in $1:"; git diff --name-only --diff-filter=U; exit 1; fi
   git commit -q --no-edit; }
 echo "merged $1"
